@@ -1,7 +1,13 @@
+#![allow(dead_code, unused_imports, unused_variables)]
 mod common;
 mod tl;
 mod gen;
 mod c02;
+mod drive;
+mod m2;
+mod c12;
+mod c15;
+mod c17;
 
 use common::*;
 
@@ -19,16 +25,23 @@ fn main() {
             let tier = args.get(3).cloned().unwrap_or_else(|| "quick".into());
             let rep = match id.as_str() {
                 "C02" | "C05" => c02::run(&id, &tier),
+                "C12" => c12::run(&tier),
+                "C15" => c15::run(&tier),
+                "C17" => c17::run(&tier),
                 _ => { eprintln!("unknown property {id}"); std::process::exit(2) }
             };
             std::process::exit(finish(rep));
         },
+        Some("m2-selftest") => std::process::exit(m2::selftest()),
         Some("replay") => {
             let id = args[2].clone();
             let doc: serde_json::Value = serde_json::from_str(&std::fs::read_to_string(&args[3]).expect("read replay file")).expect("parse replay");
             let detail = &doc["detail"];
             let code = match id.as_str() {
                 "C02" | "C05" => c02::replay(detail, &id),
+                "C12" => c12::replay(detail),
+                "C15" => c15::replay(detail),
+                "C17" => c17::replay(detail),
                 _ => 2,
             };
             std::process::exit(code);
